@@ -54,7 +54,7 @@ func runC01NullTag(c *Ctx) {
 	}
 	n := 0
 	for _, fn := range p.Funcs {
-		if strings.HasSuffix(p.File(fn.Pos()), "/parse.go") {
+		if strings.HasSuffix(p.unitFile(fn), "/parse.go") {
 			continue // the workflow itself is decoded into a *yaml.Node and walked by hand
 		}
 		isUnmarshaler := fn.Name() == "UnmarshalYAML"
@@ -159,6 +159,9 @@ func constKeysStored(fn *ssa.Function) map[string]bool {
 func runC05JobsResult(c *Ctx) {
 	p := c.P
 	needs := p.Method("RuleExpression", "populateDependantNeedsTypes")
+	if needs == nil {
+		needs = p.Method("RuleExpression", "calcNeedsType") // the helper merged into its only caller
+	}
 	jobs := p.Method("RuleExpression", "checkWorkflowCallOutputs")
 	if needs == nil || jobs == nil {
 		c.anchorMissing("(*RuleExpression).populateDependantNeedsTypes / checkWorkflowCallOutputs")
@@ -217,7 +220,7 @@ func runC10ReqExpr(c *Ctx) {
 	n := 0
 	seen := map[string]bool{}
 	for _, fn := range p.Funcs {
-		if !strings.HasSuffix(p.File(fn.Pos()), "/reusable_workflow.go") {
+		if !strings.HasSuffix(p.unitFile(fn), "/reusable_workflow.go") {
 			continue
 		}
 		for _, call := range findCalls(fn, "(*gopkg.in/yaml.v3.Node).Decode") {
@@ -665,7 +668,7 @@ func runC14NullDefault(c *Ctx) {
 	p := c.P
 	n := 0
 	for _, fn := range p.Funcs {
-		if !strings.HasSuffix(p.File(fn.Pos()), "/parse.go") {
+		if !strings.HasSuffix(p.unitFile(fn), "/parse.go") {
 			continue
 		}
 		eachInstr(fn, func(b *ssa.BasicBlock, _ int, in ssa.Instruction) {
@@ -1703,6 +1706,9 @@ func runC05JobsCall(c *Ctx) {
 	p := c.P
 	jobs := p.Method("RuleExpression", "checkWorkflowCallOutputs")
 	needs := p.Method("RuleExpression", "populateDependantNeedsTypes")
+	if needs == nil {
+		needs = p.Method("RuleExpression", "calcNeedsType") // the helper merged into its only caller
+	}
 	if jobs == nil || needs == nil {
 		c.anchorMissing("(*RuleExpression).checkWorkflowCallOutputs / populateDependantNeedsTypes")
 		return
@@ -2742,7 +2748,7 @@ func runC20JSONWhole(c *Ctx) {
 	p := c.P
 	n := 0
 	for _, fn := range p.Funcs {
-		if !strings.HasSuffix(p.File(fn.Pos()), "/rule_shellcheck.go") {
+		if !strings.HasSuffix(p.unitFile(fn), "/rule_shellcheck.go") {
 			continue
 		}
 		unm := findCalls(fn, "encoding/json.Unmarshal")
